@@ -7,6 +7,8 @@ CONSTANTS
   Forms <- McForms
   Sizes = {0, 17}
   AadSizes = {0, 20}
+  PayClasses = {"pattern"}
+  KeyVars = {"plain"}
   Deviation = "none"
 INVARIANTS AcceptIff PayloadIntact RoundTrip
 CHECK_DEADLOCK FALSE
